@@ -256,15 +256,16 @@ def showItem : Option (Option (Item Nat Nat)) → String
   | some (some (.custom l e)) => s!"err {showLoc l} custom {e}"
 
 /-- Run `n` calls of `next()`, one trace line per call. -/
-def runTrace (cfg : Config U Nat Nat) : Nat → LState U → List String → List String
+def runTrace (cfg : Config U Nat Nat) (short : Bool) : Nat → LState U → List String → List String
   | 0, _, acc => acc.reverse
   | n + 1, st, acc =>
     match next cfg st with
     | none => (s!"N HANG" :: acc).reverse
     | some (item, st') =>
       let logs := " ; ".intercalate st'.user.log
-      let line := s!"N {showItem (some item)} | S {st'.state} {st'.initial} {if st'.done then 1 else 0} | U {st'.user.counter} | {logs}"
-      runTrace cfg n { st' with user := { st'.user with log := [] } } (line :: acc)
+      let saved := if short then (if st'.last.isSome then "1" else "0") else "-"
+      let line := s!"N {showItem (some item)} | S {st'.state} {st'.initial} {if st'.done then 1 else 0} {saved} | U {st'.user.counter} | {logs}"
+      runTrace cfg short n { st' with user := { st'.user with log := [] } } (line :: acc)
 
 /-! ## Stage comparison -/
 
@@ -456,7 +457,7 @@ def runCase (prog : String) (pd : ParsedDef) (dump : Dump) (model : Option Compi
             actions := mkActions pd.kinds pd.ruleSets withText, width := width,
             input := if withText then some chars else none }
         let st : LState U := initState { script := (script.map toNat!).toArray } chars
-        [s!"TRACE {prog} {cid}"] ++ runTrace cfg (toNat! ncalls) st [] ++ ["ENDTRACE"]
+        [s!"TRACE {prog} {cid}"] ++ runTrace cfg (decide (chars.length ≤ 64)) (toNat! ncalls) st [] ++ ["ENDTRACE"]
     | _ => [s!"BADCASE {line}"]
   | _ => [s!"BADCASE {line}"]
 
